@@ -30,6 +30,9 @@
 (*         the orphanage                                                   *)
 (*   "D18" a cached update answered from the object cache always creates a *)
 (*         new Object, also when the full ID is already tracked            *)
+(*   "U1"  untrack_region_objects returns early for a region that has no   *)
+(*         region manager (never tracked): regionless objects attributed   *)
+(*         to it survive its unloading                                     *)
 (***************************************************************************)
 EXTENDS SceneGraph
 
@@ -136,8 +139,8 @@ UntrackObject(S, r, f) ==
        ELSE [S5 EXCEPT !.lidx[r][lid] = NoF]
 
 \* clear() + untrack_region_objects
-ClearRegion(S, r) ==
-    LET gone == {f \in S.fidx : S.ob[f].region = r}
+ClearRegion(S, t, r) ==
+    LET gone == IF "U1" \in Bugs /\ r \notin t THEN {} ELSE {f \in S.fidx : S.ob[f].region = r}
     IN [S EXCEPT !.lidx[r] = [l \in Locals |-> NoF],
                  !.orph[r] = [l \in Locals |-> <<>>],
                  !.ford[r] = <<>>, !.fpend[r] = {},
@@ -227,7 +230,7 @@ MNext ==
     \/ \E f \in FullIDs : Props(f) /\ A' = AProps(A, tracked, f)
     \/ \E r \in Trackable, l \in Locals : Kill(r, l) /\ A' = KillLocal(A, r, l)
     \/ \E r \in Trackable : Track(r) /\ A' = A
-    \/ \E r \in Trackable : Teardown(r) /\ A' = ClearRegion(A, r)
+    \/ \E r \in Trackable : Teardown(r) /\ A' = ClearRegion(A, tracked, r)
     \/ \E r \in Trackable, l \in Locals, ty \in ReqTypes : Request(r, l, ty) /\ A' = Register(A, r, l, ty)
 MSpec == MInit /\ [][MNext]_mvars
 
